@@ -775,6 +775,18 @@ impl<'t, F: CKind> CSession<'t, F> {
                 s
             };
             lens_ok &= s.len() == len;
+            // the same name through the callback variant
+            extern "C" fn cb(data: *mut c_void, p: *const c_char, len: usize) -> *mut c_void {
+                let out = unsafe { &mut *(data as *mut Vec<u8>) };
+                if !p.is_null() {
+                    out.extend_from_slice(unsafe { std::slice::from_raw_parts(p.cast::<u8>(), len) });
+                }
+                data
+            }
+            let mut buf: Vec<u8> = Vec::new();
+            let bp = (&mut buf as *mut Vec<u8>).cast::<c_void>();
+            let rp = unsafe { (self.api.manager_with_var_name)(m, v, cb, bp) };
+            lens_ok &= rp == bp && buf == s.as_bytes();
             c2v.push(u32m(unsafe { (self.api.manager_name_to_var)(m, s.as_ptr().cast(), s.len()) }));
             c.push(s);
         }
@@ -884,7 +896,7 @@ impl<'t, F: CKind> CSession<'t, F> {
     /// the C interface (array or iterator variant), the mirror's functions
     /// through Rust
     pub fn export_dddmp(&mut self, roots: &[Arg], named: bool, via_iter: bool) -> (bool, String) {
-        let what = if via_iter { "export_dddmp_iter" } else { "export_dddmp" };
+        let what = if via_iter && named { "export_dddmp_with_names_iter" } else if via_iter { "export_dddmp_iter" } else { "export_dddmp" };
         self.begin(&format!("c:manager_{what}"));
         let cpath = format!("{}/c.dddmp", self.tmp);
         let rpath = format!("{}/r.dddmp", self.tmp);
@@ -902,7 +914,28 @@ impl<'t, F: CKind> CSession<'t, F> {
         let mut err = Self::no_err();
         let m = self.mh();
         let c_ok = unsafe {
-            if via_iter {
+            if via_iter && named {
+                struct Ctx {
+                    items: Vec<named<fn_t>>,
+                    pos: usize,
+                }
+                extern "C" fn next(c: *mut c_void) -> opt<named<fn_t>> {
+                    let ctx = unsafe { &mut *(c as *mut Ctx) };
+                    if ctx.pos >= ctx.items.len() {
+                        return opt { is_some: false, value: std::mem::MaybeUninit::uninit() };
+                    }
+                    ctx.pos += 1;
+                    opt { is_some: true, value: std::mem::MaybeUninit::new(ctx.items[ctx.pos - 1]) }
+                }
+                let items = hs
+                    .iter()
+                    .zip(&names)
+                    .map(|(h, n)| named { func: *h, name: str_t { ptr: n.as_ptr(), len: n.as_bytes().len() } })
+                    .collect();
+                let mut ctx = Ctx { items, pos: 0 };
+                let it = iter { next, size_hint: None, context: (&mut ctx as *mut Ctx).cast() };
+                (self.api.manager_export_dddmp_with_names_iter)(m, cpath.as_ptr().cast(), cpath.len(), it, Some(&settings), &mut err)
+            } else if via_iter {
                 struct Ctx {
                     items: Vec<fn_t>,
                     pos: usize,
@@ -936,7 +969,7 @@ impl<'t, F: CKind> CSession<'t, F> {
         let (r_ok, r_size) = match self.rargs(roots) {
             Some(fs) => {
                 let ns: Vec<String> = (0..roots.len()).map(|i| format!("f{i}")).collect();
-                let r = catch(|| F::r_export(self.rm(), &rpath, &fs, if named && !via_iter { Some(&ns) } else { None }));
+                let r = catch(|| F::r_export(self.rm(), &rpath, &fs, if named { Some(&ns) } else { None }));
                 (matches!(r, Ok(Ok(()))), std::fs::metadata(&rpath).map(|m| m.len()).unwrap_or(0))
             }
             None => (false, 0),
